@@ -72,7 +72,8 @@ type env struct {
 	task    string
 	bad     string
 	tt      int
-	holdEvs bool // the consumer of the API event channel is stuck: events are not drained until "drainevs"
+	holdEvs bool
+	holdOuts bool // the consumer of the API event channel is stuck: events are not drained until "drainevs"
 }
 
 var planSeq int64
@@ -424,6 +425,9 @@ func (e *env) settle(ev hx.Event) {
 			break
 		}
 		for _, q := range e.outKeys {
+			if e.holdOuts { // the server's write loop is busy: emitted packs wait in the (buffered) output channels
+				break
+			}
 			ch := e.outs[q]
 			for {
 				select {
@@ -581,6 +585,13 @@ func run(p *hx.Plan) []hx.Event {
 				pack, rec := e.buildPack(sv, c, pk, seed+int64(si*10+xi))
 				if shared == nil {
 					shared = pack
+					// the pack of the source PCHANNEL: its positions name the physical channel (as the MQ consumer sets them)
+					for _, ps := range pack.StartPositions {
+						ps.ChannelName = pfake.ToP(sv)
+					}
+					for _, ps := range pack.EndPositions {
+						ps.ChannelName = pfake.ToP(sv)
+					}
 				} else {
 					pack.StartPositions, pack.EndPositions = shared.StartPositions, shared.EndPositions
 				}
@@ -643,6 +654,10 @@ func run(p *hx.Plan) []hx.Event {
 			time.Sleep(time.Duration(hx.I(st, "ms")) * time.Millisecond)
 		case "holdevs": // the event consumer (the server's event loop) is stuck in a slow downstream call
 			e.holdEvs = true
+		case "holdouts": // the consumer of the output channels (the server's write loop) is busy: what is emitted stays queued
+			e.holdOuts = true
+		case "drainouts":
+			e.holdOuts = false
 		case "drainevs":
 			e.holdEvs = false
 		case "burst":
@@ -710,6 +725,7 @@ func run(p *hx.Plan) []hx.Event {
 	}
 	if e.bad == "" { // drain: everything in flight runs to completion, unscheduled
 		e.holdEvs = false
+		e.holdOuts = false
 		e.sched.Abort()
 		ev := hx.Event{"op": "drain"}
 		e.settle(ev)
